@@ -92,6 +92,7 @@ class Types:
         self.enums = {}       # qualified enum name -> True
         self.aliases = {}     # alias name (unqualified and libcellml::-qualified) -> aliased type spelling
         self.records = set()  # names of libCellML records, with and without the namespace
+        self.value_records = {}   # C struct name -> qualified record name (records used by value)
 
     def is_ref_or_ptr(self, t):
         t = _strip(t)
@@ -204,7 +205,13 @@ class Types:
                 return "int"
             if t[len("libcellml::"):] in self.aliases:
                 return self._ctype(self.aliases[t[len("libcellml::"):]])
-            return None
+        if t in self.records and not t.endswith("Impl"):
+            # a libCellML record used BY VALUE (heap objects are only ever reached through
+            # pointers): a plain C struct with the same fields
+            q = t if t.startswith("libcellml::") else "libcellml::" + t
+            cn = cident(q[len("libcellml::"):])
+            self.value_records[cn] = q
+            return cn
         return None
 
     def abbr(self, c):
@@ -331,6 +338,52 @@ class Unit:
         self.sig2cname[ns] = base
         return base
 
+    def value_struct_decls(self):
+        """C struct definitions for records used by value, keyed by the model type after which
+        they must be emitted (their field types must exist first; container-of-struct
+        instantiations must come after)."""
+        res = {}
+        done = set()
+        order = list(self.types.used.keys())
+        for cn, q in list(self.types.value_records.items()):
+            rec = None
+            for tu in self.tus:
+                for rid, rq in tu.records.items():
+                    if rq == q and tu.by_id[rid].get("completeDefinition"):
+                        rec = tu.by_id[rid]
+            if rec is None:
+                raise Undecided("extraction: record %s used by value has no visible definition" % q)
+            fields = []
+            for f in _record_fields(rec):
+                fields.append("    %s %s;" % (self.types.ctype(f["type"], where=f["name"]), f["name"]))
+            eqs = " && ".join("%s_keyeq(a.%s, b.%s)" % (self.types.ctype(f["type"]), f["name"], f["name"]) for f in _record_fields(rec)) or "1"
+            inits = []
+            for f in _record_fields(rec):
+                fct = self.types.ctype(f["type"])
+                ini = [c for c in f.get("inner", []) if isinstance(c, dict) and c.get("kind") and "Comment" not in c.get("kind")]
+                if ini:
+                    fl = FunctionLowerer(self, self.tus[0], {"kind": "FunctionDecl", "inner": [], "name": cn + "_new"})
+                    fl.cname = cn + "_new"
+                    val = fl.expr(ini[0])
+                elif fct in SCALARS.values() or fct in ("ref", "int") or fct.endswith("*"):
+                    val = "0"
+                else:
+                    val = "%s_new()" % fct
+                inits.append("    r.%s = %s;" % (f["name"], val))
+            txt = ("typedef struct\n{\n%s\n} %s;\nstatic inline bool %s_keyeq(%s a, %s b) { return %s; }\n"
+                   "static inline %s %s_new(void)\n{\n    %s r;\n%s\n    return r;\n}") % (
+                "\n".join(fields), cn, cn, cn, cn, eqs, cn, cn, cn, "\n".join(inits))
+            # emit before the first model type that mentions the struct
+            anchor = None
+            prev = None
+            for name in order:
+                if cn in self.types.used[name].split("(", 1)[1]:
+                    anchor = prev
+                    break
+                prev = name
+            res.setdefault(anchor if anchor is not None else (order[-1] if order and anchor is None and not any(cn in self.types.used[n] for n in order) else "__first__"), []).append(txt)
+        return res
+
     # ---- entry ----------------------------------------------------------------------------
     def lower_function(self, tu, sig):
         f = tu.find(sig) if isinstance(sig, str) else sig
@@ -346,8 +399,15 @@ class Unit:
         for cn, v in sorted(self.enumerators.items(), key=lambda kv: (kv[0].rsplit('_', 1)[0], kv[1])):
             if cn in self.used_enumerators:
                 out.append("#define %s %d" % (cn, v))
+        vs = self.value_struct_decls()
+        for sd in vs.pop("__first__", []):
+            out.append(sd)
         for name, decl in self.types.used.items():
             out.append(decl)
+            for sd in vs.pop(name, []):
+                out.append(sd)
+        for rest in vs.values():
+            out.extend(rest)
         for fname, ct in sorted(self.fields.items()):
             out.append("HEAP_FIELD(%s, %s)" % (ct, fname))
         # every object field starts unconstrained in a modular harness: scalar fields are havocked
@@ -357,8 +417,7 @@ class Unit:
         for f in sorted(self.fields):
             ct = self.fields[f]
             if ct.startswith(("vvec_", "vmap_", "vset_")):
-                for k in range(1, 16):
-                    hv.append("#if HEAP_N > %d\n    %s[%d].n = nondet_size_t();\n#endif" % (k, f, k))
+                hv.append("    HAVOC_CONTAINER_FIELD(%s, %s);" % (f, ct))
             else:
                 hv.append("    __CPROVER_havoc_object(%s);" % f)
         hv += ["#endif", "}"]
@@ -376,6 +435,10 @@ class Unit:
         for lo in self.funcs.values():
             out.append(lo.text)
         return "\n".join(out) + "\n"
+
+
+def _record_fields(rec):
+    return [c for c in rec.get("inner", []) if c.get("kind") == "FieldDecl"]
 
 
 def _enum_value(c):
@@ -1046,6 +1109,10 @@ class FunctionLowerer:
             if name == "mPimpl":
                 return self.expr(base)
             owner = self.field_owner(fd)
+            if owner is not None and cident(owner.replace("libcellml::", "", 1)) in self.T.value_records:
+                if n.get("isArrow"):
+                    return "%s->%s" % (self.paren(base), name)
+                return "%s.%s" % (self.paren(base), name)
             if owner is not None and owner.startswith("libcellml::") and self.is_heap_record(owner):
                 arr = "F_%s_%s" % (cident(owner.split("::")[-1]), name)
                 self.u.fields.setdefault(arr, self.T.ctype(fd["type"], where=arr))
@@ -1123,6 +1190,8 @@ class FunctionLowerer:
             act = self.T._ctype(self.T.qt(args[0]["type"]))
             if act == ct:
                 return self.expr(args[0])
+            if ct.startswith("vvec_") and act == "size_t":
+                return "%s_sized(%s)" % (ct, self.expr(args[0]))
         if ct.startswith("vpair_") and len(args) == 2:
             return "((%s){%s, %s})" % (ct, self.expr(args[0]), self.expr(args[1]))
         self.bad(n, "constructor of %s with %d args" % (ct, len(args)))
@@ -1192,6 +1261,9 @@ class FunctionLowerer:
             return "std_%s(%s)" % (name, ", ".join(self.expr(x) for x in a))
         if name in ("isnan", "isinf", "fabs", "pow", "log10", "floor", "ceil", "sqrt", "exp", "log", "abs", "isfinite"):
             return "std_%s(%s)" % (name, ", ".join(self.expr(x) for x in args))
+        if name in ("epsilon", "max", "min", "lowest", "infinity", "quiet_NaN") and not args:
+            ct = self.T.ctype(n["type"])
+            return "NUMLIM_%s_%s" % (name, self.T.abbr(ct))
         if name == "memcpy":
             return "memcpy(%s)" % ", ".join(self.expr(x) for x in args)
         if name in ("move", "forward", "as_const"):
@@ -1205,6 +1277,17 @@ class FunctionLowerer:
         if name == "make_pair":
             ct = self.T.ctype(n["type"])
             return "((%s){%s, %s})" % (ct, self.expr(args[0]), self.expr(args[1]))
+        if name == "iota" and len(args) == 3:
+            it = self.T.ctype(args[0]["type"])
+            return "%s_iota(%s, %s, %s)" % (it, self.expr(args[0]), self.expr(args[1]), self.expr(args[2]))
+        if name == "copy" and len(args) == 3:
+            bi = _strip_transparent(_strip_casts(args[2]))
+            if bi.get("kind") == "CallExpr" and (_strip_casts(bi["inner"][0]).get("referencedDecl") or {}).get("name") == "back_inserter":
+                dst = bi["inner"][1]
+                it = self.T.ctype(args[0]["type"])
+                dct = self.T.ctype(dst["type"])
+                return "%s_copy_back_%s(%s, %s, &(%s))" % (it, dct, self.expr(args[0]), self.expr(args[1]), self.lvalue(dst))
+            self.bad(n, "std::copy without back_inserter")
         if name == "swap" and len(args) == 2:
             ct = self.T.ctype(args[0]["type"])
             t = self.newtmp("swap")
@@ -1247,7 +1330,7 @@ class FunctionLowerer:
         if hname not in [h[0] for h in getattr(self.u, "_hnames", [])]:
             self.u._hnames = getattr(self.u, "_hnames", []) + [(hname,)]
             lc = "__LC_%s_0" % hname
-            callp = "%s(%s_deref(first)%s)" % (pname, itct, ea_names(extra_params))
+            callp = "%s(VIT_DEREF(first)%s)" % (pname, ea_names(extra_params))
             if name == "all_of":
                 rt, body = "bool", "for (; first.i != last.i; ++first.i)\n    %s\n    { if (!%s) return 0; }\n    return 1;" % (lc, callp)
             elif name == "any_of":
@@ -1416,6 +1499,9 @@ class FunctionLowerer:
             fn = fn.replace("_lit", "_s")
         self.note_call("std::%s::%s" % (oct_, name))
         is_lv_ret = name in ("at", "operator[]", "front", "back")
+        if lv is not None and name in ("at", "operator[]") and oct_.startswith("vvec_") and len(av) == 1:
+            # element access is an lvalue expression, not a pointer returned by a function
+            return "VEC_%s(%s, &(%s), %s)" % ("AT" if name == "at" else "INDEX", oct_, lv, av[0])
         if lv is not None:
             call = "%s(&(%s)%s)" % (fn, lv, "".join(", " + v for v in av))
         else:
@@ -1435,13 +1521,13 @@ class FunctionLowerer:
         a0t = self.T.ctype(args[0]["type"]) if args else None
         if op == "operator->":
             if a0t.startswith("vit_"):
-                return "%s_ptr(%s)" % (a0t, self.expr(args[0]))
+                return "(&VIT_DEREF(%s))" % self.expr(args[0])
             return self.expr(args[0])
         if op == "operator*" and len(args) == 1:
             if a0t == "ref":
                 return self.expr(args[0])
             if a0t.startswith("vit_"):
-                return "(*%s_ptr(%s))" % (a0t, self.expr(args[0]))
+                return "VIT_DEREF(%s)" % self.expr(args[0])
         if op == "operator bool":
             return "(%s != 0)" % self.paren(args[0])
         if op in ("operator==", "operator!=") and len(args) == 2:
@@ -1472,6 +1558,8 @@ class FunctionLowerer:
             if lv is None:
                 self.bad(n, "operator[] on temporary")
             self.note_call("std::%s::operator[]" % a0t)
+            if a0t.startswith("vvec_"):
+                return "VEC_INDEX(%s, &(%s), %s)" % (a0t, lv, self.expr(args[1]))
             return "(*%s_index(&(%s), %s))" % (a0t, lv, self.expr(args[1]))
         if op in ("operator+", "operator-") and len(args) == 2 and a0t.startswith("vit_"):
             a1t = self.T.ctype(args[1]["type"])
